@@ -349,6 +349,10 @@ func CR3Wrap(rt *rapid.T, edits ...func(moov, canon *Box)) func(cmt [4][]byte) (
 	traks := rapid.IntRange(0, 2).Draw(rt, "cr3.traks")
 	canonLast := Chance(rt, "cr3.canonLast", 0.3)
 	mdat := rapid.SliceOfN(rapid.Byte(), 64, 300).Draw(rt, "cr3.mdat")
+	// a sibling of the CMT boxes whose own parser rejects it (a version box or a table cut short, an empty maker-note box):
+	// the boxes next to it are not its business
+	odd := rapid.SampledFrom([]string{"", "", "", "", "short-cncv", "empty-cmt3", "short-ctbo"}).Draw(rt, "cr3.odd")
+	oddLen := rapid.IntRange(0, 29).Draw(rt, "cr3.oddlen")
 	edge := DrawEdge(rt, "cr3")
 	edgeAt := rapid.IntRange(1, 2).Draw(rt, "cr3.edge.at") // (never between ftyp and moov: the CR3 entry points read the box after ftyp as moov, which is the layout every camera writes)
 	build := func(cmt [4][]byte, pad int) ([]byte, *Box) {
@@ -356,6 +360,9 @@ func CR3Wrap(rt *rapid.T, edits ...func(moov, canon *Box)) func(cmt [4][]byte) (
 		add := func(b *Box) { canon.Kids = append(canon.Kids, b) }
 		cncv := make([]byte, 30)
 		copy(cncv, "CanonCR3_001/00.09.00/00.00.00")
+		if odd == "short-cncv" {
+			cncv = cncv[:oddLen]
+		}
 		add(&Box{Type: "CNCV", Data: cncv})
 		if f1 != nil {
 			add(&Box{Type: f1.Type, Data: f1.Data, Large: f1.Large})
@@ -366,6 +373,9 @@ func CR3Wrap(rt *rapid.T, edits ...func(moov, canon *Box)) func(cmt [4][]byte) (
 			binary.BigEndian.PutUint32(ctbo[4+20*i:], uint32(i+1))
 			binary.BigEndian.PutUint64(ctbo[8+20*i:], uint64(1000*(i+1)))
 			binary.BigEndian.PutUint64(ctbo[16+20*i:], uint64(100*(i+1)))
+		}
+		if odd == "short-ctbo" {
+			ctbo = ctbo[:oddLen%4]
 		}
 		add(&Box{Type: "CTBO", Data: ctbo})
 		var padBox *Box
@@ -378,6 +388,8 @@ func CR3Wrap(rt *rapid.T, edits ...func(moov, canon *Box)) func(cmt [4][]byte) (
 		for i, name := range []string{"CMT1", "CMT2", "CMT3", "CMT4"} {
 			if cmt[i] != nil {
 				add(&Box{Type: name, Data: cmt[i]})
+			} else if i == 2 && odd == "empty-cmt3" {
+				add(&Box{Type: name})
 			}
 			if mids[i] != nil {
 				add(&Box{Type: mids[i].Type, Data: mids[i].Data, Large: mids[i].Large})
